@@ -8,7 +8,9 @@ Grid spec (JSON-able dict)::
     {"kind": "C" | "T" | "Tet" | "Tensor", "n": [nx, ny(, nz)],      # C/T/Tet
      "coords": [[...], [...]],                                         # Tensor
      "pert": [[node, [ix, iy, iz]], ...],     # node offsets in units of 0.1 (h = 1)
-     "affine": "id" | "shear" | "rotscale"}  # exact dyadic affine image
+     "affine": "id" | "shear" | "rotscale",  # exact dyadic affine image
+     "scale": 1e-3 | 1e3,                    # uniform scaling of all node coordinates
+     "periodic": [axis, ...]}                # C/Tensor only: identify low/high sides
 
 All grids have unit spacing before perturbation (except Tensor). Perturbing nodes of
 hexahedra would make faces non-planar, so ``pert`` is only admitted for 2-d grids and for
@@ -48,6 +50,10 @@ def grid_name(spec) -> str:
         s += "~" + "".join(f"[{k}:{','.join(str(v) for v in o)}]" for k, o in spec["pert"])
     if spec.get("affine", "id") != "id":
         s += "@" + spec["affine"]
+    if spec.get("scale", 1.0) != 1.0:
+        s += f"*{spec['scale']:g}"
+    if spec.get("periodic"):
+        s += "/per" + "".join("xyz"[a] for a in spec["periodic"])
     return s
 
 
@@ -98,13 +104,37 @@ def build_grid(spec):
     A = AFFINE[dim][spec.get("affine", "id")]
     if spec.get("affine", "id") != "id":
         g.nodes = A @ g.nodes
-    if pert or spec.get("affine", "id") != "id":
+    scale = float(spec.get("scale", 1.0))
+    if scale != 1.0:
+        g.nodes = scale * g.nodes
+    if pert or spec.get("affine", "id") != "id" or scale != 1.0:
         g.compute_geometry()
+    periodic_pairs = None
+    per = spec.get("periodic") or []
+    if per:
+        assert kind in ("C", "Tensor") and not pert and spec.get("affine", "id") == "id"
+        pairs = []
+        for ax in per:
+            lo = bfaces[side == 2 * ax]
+            hi = bfaces[side == 2 * ax + 1]
+            assert lo.size == hi.size and lo.size > 0
+            others = [a for a in range(dim) if a != ax]
+            for a_, b_ in zip(lo, hi):  # matching faces: same transverse coordinates
+                assert np.allclose(g.face_centers[others, a_], g.face_centers[others, b_])
+                pairs.append((int(a_), int(b_)))
+        pairs.sort()
+        pm = np.array(pairs, dtype=int).T
+        assert np.all(np.diff(pm[0]) > 0) and np.all(np.diff(pm[1]) > 0)
+        g.set_periodic_map(pm)
+        periodic_pairs = pm
+        keep = ~np.isin(bfaces, pm.ravel())
+        bfaces, side = bfaces[keep], side[keep]
     cf = g.cell_faces.tocsr()
     sgn = np.array([cf[f].data[0] for f in bfaces], dtype=float)
     # sanity of the letter itself (not of the code under test): positive volumes
     assert np.all(g.cell_volumes > 0)
-    info = {"bfaces": bfaces, "side": side, "sgn": sgn, "interior_nodes": interior_nodes, "dim": dim}
+    info = {"bfaces": bfaces, "side": side, "sgn": sgn, "interior_nodes": interior_nodes, "dim": dim,
+            "periodic_pairs": periodic_pairs}
     return g, info
 
 
@@ -234,8 +264,32 @@ def mask_to_dir(mask: int, nb: int) -> np.ndarray:
 def make_bc(g, bfaces: np.ndarray, is_dir: np.ndarray):
     import porepy as pp
 
+    if len(bfaces) == 0:
+        return pp.BoundaryCondition(g)
     labels = np.where(is_dir, "dir", "neu").tolist()
     return pp.BoundaryCondition(g, bfaces, labels)
+
+
+def num_boundary_faces(spec) -> int:
+    """Number of (non-periodic) boundary faces of a grid letter, from the letter alone."""
+    kind = spec["kind"]
+    if kind in ("C", "Tensor"):
+        n = [len(c) - 1 for c in spec["coords"]] if kind == "Tensor" else list(spec["n"])
+        per = set(spec.get("periodic") or [])
+        if len(n) == 1:
+            return 0 if 0 in per else 2
+        tot = 0
+        for ax in range(len(n)):
+            if ax in per:
+                continue
+            tot += 2 * int(np.prod([n[a] for a in range(len(n)) if a != ax]))
+        return tot
+    n = spec["n"]
+    if kind == "T":
+        return 2 * (n[0] + n[1])
+    if kind == "Tet":
+        return 4 * (n[0] * n[1] + n[0] * n[2] + n[1] * n[2])
+    raise ValueError(kind)
 
 
 # ----------------------------------------------------------------------------- linear fields
@@ -254,3 +308,69 @@ def basis_fields(dim: int):
 def exact_flux(g, K: np.ndarray, grad: np.ndarray) -> np.ndarray:
     """-n_f . K grad p integrated over every face (constant K, linear p)."""
     return -(g.face_normals.T @ (K @ grad))
+
+
+# ----------------------------------------------------------------------------- purity digest
+
+
+def digest(*objs) -> str:
+    """Bitwise digest of arguments: ndarrays (dtype, shape, bytes), scipy sparse matrices
+    (format, shape, data/indices/indptr or the coo triplet), dicts/lists/tuples, scalars and
+    strings, and recursively the ``__dict__`` of any other object (grids, tensors, boundary
+    condition objects). Callables and modules are ignored."""
+    import hashlib
+
+    import scipy.sparse as sps
+
+    h = hashlib.blake2b(digest_size=16)
+    seen = set()
+
+    def feed(x, depth=0):
+        if x is None or isinstance(x, (bool, int, float, complex, str, np.generic)):
+            h.update(repr(x).encode())
+        elif isinstance(x, np.ndarray):
+            h.update(str((x.dtype.str, x.shape)).encode())
+            if x.dtype == object:
+                for v in x.ravel():
+                    feed(v, depth + 1)
+            else:
+                h.update(np.ascontiguousarray(x).tobytes())
+        elif sps.issparse(x):
+            h.update(str((x.format, x.shape)).encode())
+            for name in ("data", "indices", "indptr", "row", "col", "offsets"):
+                if hasattr(x, name):
+                    feed(np.asarray(getattr(x, name)), depth + 1)
+        elif isinstance(x, dict):
+            for k in sorted(x, key=repr):
+                h.update(repr(k).encode())
+                feed(x[k], depth + 1)
+        elif isinstance(x, (list, tuple)):
+            h.update(str(len(x)).encode())
+            for v in x:
+                feed(v, depth + 1)
+        elif callable(x) or isinstance(x, type(np)):
+            pass
+        elif hasattr(x, "__dict__"):
+            if id(x) in seen or depth > 6:
+                return
+            seen.add(id(x))
+            h.update(type(x).__name__.encode())
+            feed(vars(x), depth + 1)
+        else:
+            h.update(repr(type(x)).encode())
+
+    for o in objs:
+        feed(o)
+    return h.hexdigest()
+
+
+def dense_copy(md) -> dict:
+    """Flat dict of dense copies of a (possibly nested) matrix dictionary."""
+    out = {}
+    for k, v in md.items():
+        if isinstance(v, dict):
+            for kk, vv in v.items():
+                out[f"{k}/{kk}"] = np.array(vv.toarray())
+        else:
+            out[k] = np.array(v.toarray())
+    return out
